@@ -191,7 +191,9 @@ pub fn roundtrip_case(l: &mut Local, prop_site: &str, p: &Pkt, var: Variant) {
     l.nontrivial(fp_bytes(&bytes));
     let expected = observe::expected_observation(p);
     l.transitions += 1;
-    let obs = guard::catch(|| observe::parse_and_observe(&bytes));
+    // read back at a rotating address residue (engine::place)
+    crate::placed!(l, bytes);
+    let obs = guard::catch(|| observe::parse_and_observe(bytes));
     l.validated += 1;
     let name = p.builder_name();
     let empty_list = matches!(p, Pkt::Fb { fci: Fci::Fir(v), .. } if v.is_empty()) || matches!(p, Pkt::Fb { fci: Fci::Sli(v), .. } if v.is_empty());
@@ -214,7 +216,7 @@ pub fn roundtrip_case(l: &mut Local, prop_site: &str, p: &Pkt, var: Variant) {
                 // out this packet, then end
                 l.transitions += 1;
                 let via = guard::catch(|| -> Result<(), String> {
-                    let mut c = rtcp_types::Compound::parse(&bytes).map_err(|e| format!("Compound::parse = {:?}", e))?;
+                    let mut c = rtcp_types::Compound::parse(bytes).map_err(|e| format!("Compound::parse = {:?}", e))?;
                     let first = c.next().ok_or("the compound yields nothing")?.map_err(|e| format!("the compound yields {:?}", e))?;
                     let mut o2 = observe::obs_packet(&first, bytes.len()).map_err(|e| format!("{:?}", e))?;
                     if let Pkt::Fb { fci: Fci::Fir(v), .. } = &mut o2 {
@@ -556,7 +558,8 @@ pub fn roundtrip_iterator_histories(ctx: &mut Ctx, spaces: Vec<CfgSpace>, per_sp
             }
             if let Some(Built::Bytes(b)) = build_bytes(l, "roundtrip", &p, Variant::PLAIN) {
                 l.sample(|| format!("iterator histories on the built {}", p.short()));
-                all_iterator_histories(l, &b, depth);
+                crate::placed!(l, b);
+                all_iterator_histories(l, b, depth);
             }
         });
     }
